@@ -191,25 +191,47 @@ func (g *Generator) generateMockFieldAssignmentsVisiting(
 		fieldName := field.GoName
 		fieldPath := messageName + "." + string(field.Desc.Name())
 
+		// Oneof members and repeated scalars have no plain field to assign a single
+		// example to; like repeated messages they are left unset.
+		if field.Oneof != nil && !field.Oneof.Desc.IsSynthetic() {
+			gf.P("// TODO: Handle oneof field ", fieldName)
+			continue
+		}
+		if field.Desc.IsList() && field.Desc.Kind() != protoreflect.MessageKind {
+			gf.P("// TODO: Handle repeated field ", fieldName)
+			continue
+		}
+
+		// assign emits the assignment of a scalar example, converted to the field's Go
+		// type; proto3 optional fields are pointers.
+		assign := func(expr string) {
+			switch field.Desc.Kind() {
+			case protoreflect.Int32Kind:
+				expr = "int32(" + expr + ")"
+			case protoreflect.FloatKind:
+				expr = "float32(" + expr + ")"
+			default:
+			}
+			if field.Desc.HasOptionalKeyword() {
+				gf.P("{")
+				gf.P("v := ", expr)
+				gf.P(varName, ".", fieldName, " = &v")
+				gf.P("}")
+				return
+			}
+			gf.P(varName, ".", fieldName, " = ", expr)
+		}
+
 		// Generate assignment based on field type
 		switch field.Desc.Kind() {
 		case protoreflect.StringKind:
-			gf.P(
-				varName,
-				".",
-				fieldName,
-				" = selectStringExample(\"",
-				fieldPath,
-				"\", ",
-				g.getDefaultGenerator(field),
-				")",
-			)
+			assign("selectStringExample(\"" + fieldPath + "\", " + g.getDefaultGenerator(field) + ")")
 		case protoreflect.Int32Kind, protoreflect.Int64Kind:
-			gf.P(varName, ".", fieldName, " = selectIntExample(\"", fieldPath, "\", ", g.getDefaultValue(field), ")")
+			assign("selectIntExample(\"" + fieldPath + "\", " + g.getDefaultValue(field) + ")")
 		case protoreflect.BoolKind:
-			gf.P(varName, ".", fieldName, " = selectBoolExample(\"", fieldPath, "\", ", g.getDefaultValue(field), ")")
+			assign("selectBoolExample(\"" + fieldPath + "\", " + g.getDefaultValue(field) + ")")
 		case protoreflect.FloatKind, protoreflect.DoubleKind:
-			gf.P(varName, ".", fieldName, " = selectFloatExample(\"", fieldPath, "\", ", g.getDefaultValue(field), ")")
+			assign("selectFloatExample(\"" + fieldPath + "\", " + g.getDefaultValue(field) + ")")
 		case protoreflect.MessageKind:
 			switch {
 			case field.Desc.IsMap():
@@ -284,8 +306,20 @@ func (g *Generator) generateMockMapFieldAssignment(
 	} else {
 		// Value is a scalar type
 		valueType := g.getGoTypeScalar(valueField)
-		gf.P(varName, ".", fieldName, " = make(map[", keyType, "]", valueType, ")")
 		defaultValue := g.getDefaultValue(valueField)
+		//nolint:exhaustive // the remaining kinds keep getDefaultValue's literal
+		switch valueField.Desc.Kind() {
+		case protoreflect.EnumKind:
+			// enum values have their own Go type, not int32
+			valueType = gf.QualifiedGoIdent(valueField.Enum.GoIdent)
+			defaultValue = "0"
+		case protoreflect.Sint32Kind, protoreflect.Uint32Kind, protoreflect.Sint64Kind, protoreflect.Uint64Kind,
+			protoreflect.Sfixed32Kind, protoreflect.Fixed32Kind, protoreflect.Sfixed64Kind, protoreflect.Fixed64Kind:
+			defaultValue = "42"
+		case protoreflect.BytesKind:
+			defaultValue = `[]byte("example")`
+		}
+		gf.P(varName, ".", fieldName, " = make(map[", keyType, "]", valueType, ")")
 		gf.P(varName, ".", fieldName, "[", sampleKey, "] = ", defaultValue)
 	}
 }
